@@ -1,8 +1,10 @@
 //! C14 — Journal-backed zones survive a stop at any point.
 //!
 //! A C12 history runs on a `SqliteZoneHandler` with an on-disk journal (file under the case's temp
-//! dir, tmpfs when available), starting with the initial `persist_to_journal` dump. Every INSERT
-//! autocommits, so the stop points are the journal row counts: for every k in 0..=rows the journal
+//! dir, tmpfs when available), starting with the initial `persist_to_journal` dump. The stop
+//! points are the durable states of the journal: SQLite update/commit hooks on the journal's own
+//! connection record the row count at every commit (with autocommitted INSERTs that is every row
+//! count; rows written inside one transaction give one stop point). For every such k the journal
 //! file is copied, rows with rowid > k are deleted through `rusqlite`, and a fresh handler is
 //! recovered with `recover_with_journal` (what `try_from_config` does when the file exists).
 //!
@@ -116,22 +118,36 @@ struct Run {
     /// message first+j wrote a post-update SOA row
     soa_row: Vec<bool>,
     /// journal rows present when the commit observer was installed
+    #[allow(dead_code)]
     seen_from: i64,
-    /// seen[i] = SOA serial held in memory (what a query would be answered with) at the moment
-    /// journal row seen_from + 1 + i was committed; None = not observable at that instant
-    seen: Vec<Option<u32>>,
+    /// one entry per SQLite commit since then: (journal rows durable once that commit completed,
+    /// SOA serial held in memory — what a query would be answered with — at that moment; None =
+    /// not observable at that instant)
+    seen: Vec<(i64, Option<u32>)>,
 }
 
 impl Run {
-    fn seen_at(&self, row: i64) -> Option<u32> {
-        if row <= self.seen_from {
-            return None;
-        }
-        self.seen.get((row - self.seen_from - 1) as usize).copied().flatten()
+    /// the durable row counts (stop points) from `from` on, ascending; `start` = a row count known
+    /// to be durable without a commit having been observed (the state the observer was installed on)
+    fn stop_points(&self, from: i64, start: Option<i64>) -> Vec<i64> {
+        let mut v: Vec<i64> = self.seen.iter().map(|c| c.0).filter(|r| *r >= from).collect();
+        v.extend(start.filter(|s| *s >= from));
+        v.sort();
+        v.dedup();
+        v
     }
 }
 
-type SeenLog = Arc<Mutex<Vec<Option<u32>>>>;
+#[derive(Default)]
+struct Observed {
+    /// highest rowid inserted so far (committed or not)
+    rows: i64,
+    /// rows as of the last commit (a rollback returns to it)
+    durable: i64,
+    commits: Vec<(i64, Option<u32>)>,
+}
+
+type SeenLog = Arc<Mutex<Observed>>;
 
 /// the serial a query arriving now would see; never blocks (the zone lock may be held for writing)
 fn peek_serial(h: &Handler) -> Option<u32> {
@@ -145,22 +161,50 @@ fn peek_serial(h: &Handler) -> Option<u32> {
     }
 }
 
-/// SQLite commit hook on the journal connection: one observation per committed row
+/// SQLite hooks on the journal connection: the update hook follows the row count, the commit hook
+/// records (rows now durable, serial visible in memory) for every commit, the rollback hook
+/// returns to the last durable row count
 fn install_observer(h: &Arc<Handler>) -> Result<SeenLog, Fail> {
-    let log: SeenLog = Arc::new(Mutex::new(Vec::new()));
     let weak = Arc::downgrade(h);
-    let log2 = log.clone();
     let g = block_on(h.journal());
     let j = g.as_ref().ok_or_else(|| Fail::new("harness", "no journal attached"))?;
-    j.conn()
-        .commit_hook(Some(move || {
-            let seen = weak.upgrade().and_then(|h| peek_serial(&h));
-            if let Ok(mut l) = log2.lock() {
-                l.push(seen);
+    let conn = j.conn();
+    let have: Option<i64> = conn
+        .query_row("SELECT MAX(_rowid_) FROM records", [], |r| r.get(0))
+        .map_err(|e| Fail::new("harness", format!("row count: {e}")))?;
+    let have = have.unwrap_or(0);
+    let log: SeenLog = Arc::new(Mutex::new(Observed {
+        rows: have,
+        durable: have,
+        commits: vec![],
+    }));
+    let l = log.clone();
+    conn.update_hook(Some(move |action: rusqlite::hooks::Action, _db: &str, table: &str, rowid: i64| {
+        if table == "records" && action == rusqlite::hooks::Action::SQLITE_INSERT {
+            if let Ok(mut o) = l.lock() {
+                o.rows = o.rows.max(rowid);
             }
-            false
-        }))
-        .map_err(|e| Fail::new("harness", format!("commit hook: {e}")))?;
+        }
+    }))
+    .map_err(|e| Fail::new("harness", format!("update hook: {e}")))?;
+    let l = log.clone();
+    conn.commit_hook(Some(move || {
+        let seen = weak.upgrade().and_then(|h| peek_serial(&h));
+        if let Ok(mut o) = l.lock() {
+            o.durable = o.rows;
+            let rows = o.rows;
+            o.commits.push((rows, seen));
+        }
+        false
+    }))
+    .map_err(|e| Fail::new("harness", format!("commit hook: {e}")))?;
+    let l = log.clone();
+    conn.rollback_hook(Some(move || {
+        if let Ok(mut o) = l.lock() {
+            o.rows = o.durable;
+        }
+    }))
+    .map_err(|e| Fail::new("harness", format!("rollback hook: {e}")))?;
     Ok(log)
 }
 
@@ -189,10 +233,15 @@ fn apply_msgs(h: &Handler, c: &Case, first: usize, log: &SeenLog, seen_from: i64
         run.soa_row.push(s.zone.serial() != serial_before && run.rows[run.rows.len() - 1] > run.rows[run.rows.len() - 2]);
         run.states.push(s);
     }
-    run.seen = log.lock().map(|l| l.clone()).unwrap_or_default();
-    let expect = (*run.rows.last().unwrap() - seen_from) as usize;
-    if run.seen.len() != expect {
-        return Err(Fail::new("harness", format!("commit observer saw {} commits for {expect} journal rows", run.seen.len())));
+    run.seen = log.lock().map(|l| l.commits.clone()).unwrap_or_default();
+    // everything the journal holds now was seen being committed, in order
+    let total = *run.rows.last().unwrap();
+    let last = run.seen.last().map(|c| c.0).unwrap_or(seen_from);
+    if last.max(seen_from) != total || run.seen.windows(2).any(|w| w[0].0 > w[1].0) {
+        return Err(Fail::new(
+            "harness",
+            format!("commit observer out of step with the journal: {total} rows, commits at {:?}", run.seen.iter().map(|c| c.0).collect::<Vec<_>>()),
+        ));
     }
     Ok(Ok(run))
 }
@@ -273,7 +322,7 @@ fn sweep(cx: &mut Ctx<'_>, jpath: &std::path::Path, run: &Run, k_from: i64, leve
     let total = *run.rows.last().unwrap();
     let n = run.rows.len() - 1;
     let cpath = cx.dir.join(format!("cut-l{level}.sqlite"));
-    for k in k_from..=total {
+    for k in run.stop_points(k_from, Some(run.rows[0])) {
         cx.crash_points += 1;
         cut_copy(jpath, &cpath, k)?;
         let rec = recover(&cpath, &cx.origin)?;
@@ -353,8 +402,10 @@ fn sweep(cx: &mut Ctx<'_>, jpath: &std::path::Path, run: &Run, k_from: i64, leve
         // ... nor below a serial a query could have been answered with before the stop: the serial
         // held in memory when each row up to the one that was never written got committed
         if let Some(rs) = s.zone.serial() {
-            for row in (run.rows[lo] + 1)..=(k + 1).min(total) {
-                let Some(vis) = run.seen_at(row) else { continue };
+            // commits after boundary lo, up to and including the first one that did not happen
+            let first_missing = run.seen.iter().map(|c| c.0).find(|r| *r > k);
+            for (row, vis) in run.seen.iter().filter(|c| c.0 > run.rows[lo] && c.0 <= first_missing.unwrap_or(k)) {
+                let (row, Some(vis)) = (*row, *vis) else { continue };
                 if rs != vis && !serial_gt(rs, vis) {
                     let msg = format!(
                         "{}: recovered serial {rs}, but serial {vis} was already visible in memory when row {row} was committed",
@@ -420,7 +471,7 @@ enum What {
 fn sweep_dump(cx: &mut Ctx<'_>, jpath: &std::path::Path, run: &Run) -> CaseResult {
     let r0 = run.rows[0];
     let cpath = cx.dir.join("cut-dump.sqlite");
-    for k in 0..r0 {
+    for k in run.stop_points(0, Some(0)).into_iter().filter(|k| *k < r0) {
         cx.crash_points += 1;
         cx.interior_points += 1;
         cut_copy(jpath, &cpath, k)?;
@@ -428,7 +479,14 @@ fn sweep_dump(cx: &mut Ctx<'_>, jpath: &std::path::Path, run: &Run) -> CaseResul
         cx.recoveries += 1;
         if let Recovered::Ok(h, _) = rec {
             let s = snapshot(&h);
-            if s.zone != run.states[0].zone {
+            if s.zone != run.states[0].zone && k == 0 && s.zone.rrs.is_empty() {
+                // nothing of the dump is durable yet: the journal file exists (schema only) and
+                // recovery takes it for a zone without any record
+                cx.known(
+                    "stop-before-initial-dump-recovers-empty-zone",
+                    format!("stop before the first commit of the {r0}-row initial dump: recovery of the empty journal succeeded with a zone holding no record (no SOA)"),
+                )?;
+            } else if s.zone != run.states[0].zone {
                 cx.known(
                     "initial-dump-stop-recovers-partial-zone",
                     format!(
@@ -479,8 +537,9 @@ fn body(c: &Case, rec: &mut Rec, what: What) -> CaseResult {
         second_level: 0,
         strict: rec.strict,
     };
-    rec.count("commit_observations", run.seen.iter().filter(|s| s.is_some()).count() as u64);
-    rec.count("commit_instants_not_observable", run.seen.iter().filter(|s| s.is_none()).count() as u64);
+    rec.count("commit_observations", run.seen.iter().filter(|s| s.1.is_some()).count() as u64);
+    rec.count("commit_instants_not_observable", run.seen.iter().filter(|s| s.1.is_none()).count() as u64);
+    rec.count("commits_holding_several_rows", run.seen.windows(2).filter(|w| w[1].0 - w[0].0 >= 2).count() as u64);
     let res = if what == What::InitialDump {
         let mut dump_only = Run {
             first: 0,
@@ -489,7 +548,7 @@ fn body(c: &Case, rec: &mut Rec, what: What) -> CaseResult {
             answers: vec![],
             soa_row: vec![],
             seen_from: 0,
-            seen: vec![],
+            seen: run.seen.clone(),
         };
         // stop points 0 .. r_0 - 1 (r_0 itself is the first boundary, swept by the other subs)
         dump_only.rows[0] = run.rows[0];
@@ -546,9 +605,9 @@ pub fn check() -> Option<Check> {
     Some(Check {
         id: "C14",
         level: "fault_enumeration",
-        rule: "C12 histories (1..6 signed UPDATE messages through ZoneHandler::update; apex delete-all redirected, serial 2^32-1 avoided) on a SqliteZoneHandler with an on-disk journal incl. the initial persist_to_journal dump; per history EVERY journal row count k in 0..=rows is a stop point (copy the file, DELETE rowid > k, recover_with_journal into a fresh handler, re-attach the journal, continue the remaining history); journal_stop_twice additionally sweeps every stop point of the continuation for a third of the first-level points. Counters stop_points / recoveries / continuations give the number of (history, k) pairs. Non-trivial = distinct history containing at least one message that wrote >= 2 journal rows (so that some k lies strictly inside a message or between its update rows and its SOA row)",
+        rule: "C12 histories (1..6 signed UPDATE messages through ZoneHandler::update; apex delete-all redirected, serial 2^32-1 avoided) on a SqliteZoneHandler with an on-disk journal incl. the initial persist_to_journal dump; per history EVERY durable journal state is a stop point: the row count k after each SQLite commit as recorded by update/commit hooks on the journal's connection, which with this tree's autocommitted INSERTs is every k in 0..=rows (copy the file, DELETE rowid > k, recover_with_journal into a fresh handler, re-attach the journal, continue the remaining history); journal_stop_twice additionally sweeps every stop point of the continuation for a third of the first-level points. Counters stop_points / recoveries / continuations give the number of (history, k) pairs. Non-trivial = distinct history containing at least one message that wrote >= 2 journal rows (so that some k lies strictly inside a message or between its update rows and its SOA row)",
         assumptions: vec![
-            "a stop tears at journal-row granularity; atomicity and durability of one SQLite commit are SQLite's and are trusted",
+            "a stop tears between SQLite commits (observed, not assumed); atomicity and durability of one SQLite commit are SQLite's and are trusted",
             "boundary states are those of the running server (C12 decides separately that they are the RFC 2136 states)",
             "concurrent queries racing an update are not explored; 'serial answered before the stop' is the serial of the last boundary at or before k",
         ],
